@@ -17,11 +17,15 @@ TOOL = 4
 
 
 class MonDict(dict):
-    __slots__ = ("mon", "direction")
+    __slots__ = ("mon", "direction", "reads")
 
     def __init__(self, mon, direction):
         super().__init__()
-        self.mon, self.direction = mon, direction
+        self.mon, self.direction, self.reads = mon, direction, 0
+
+    def __contains__(self, key):
+        self.reads += 1  # evidence counter only (reads shadow nothing)
+        return dict.__contains__(self, key)
 
     def __setitem__(self, key, value):
         mon = self.mon
@@ -46,7 +50,7 @@ class MonDict(dict):
     def setdefault(self, key, default=None):
         mon = self.mon
         with mon.lock:
-            if key in self:
+            if dict.__contains__(self, key):
                 return dict.__getitem__(self, key)
             dict.__setitem__(self, key, default)
             mon._log(self.direction, key, None, default)
@@ -373,7 +377,7 @@ class Schedule:
         last = {}
         same = {}
         while ta.is_alive() or tb.is_alive():
-            ta.join(0.001)
+            (ta if ta.is_alive() else tb).join(0.001)
             if not ta.is_alive() and not tb.is_alive():
                 break
             frames = sys._current_frames()
